@@ -35,6 +35,7 @@ class Msg:
     def __init__(self, num, gen, sender, recips, body, kind, born):
         self.num, self.gen, self.sender, self.recips, self.body, self.kind, self.born = num, gen, sender, recips, body, kind, born
         self.records = None       # {chan: [Rcpt]} once preprocessed
+        self.mark_trouble = set() # channels on which a call of markdone() failed (injected fault) since the last pass opened
         self.birth = None         # observed mtime of info/N (what the daemon uses)
         self.gone = False         # info removed
         self.token = None
@@ -287,6 +288,18 @@ class Ledger(qsim.Oracle):
         c = ev.get("c")
         p = ev.get("path", "")
         if ev.get("ret", -1) < 0:
+            # a failed open-for-writing / write / close on a channel file inside qmail-send is markdone() in trouble
+            # ("trouble marking ...; message will be delivered twice!"): the mark may be missing although the report
+            # was final, and the next pass over that file legitimately attempts the recipient again
+            if ev.get("prog") == "qmail-send" and c in ("open", "write", "close", "lseek") and ev.get("inj"):
+                parts = p.replace(" (deleted)", "").split("/")
+                if len(parts) >= 3 and parts[0] == "queue" and parts[1] in ("local", "remote"):
+                    try:
+                        m = self.msg(int(parts[-1]))
+                    except ValueError:
+                        m = None
+                    if m is not None:
+                        m.mark_trouble.add("l" if parts[1] == "local" else "r")
             return
         parts = p.replace(" (deleted)", "").split("/")
         if len(parts) < 3 or parts[0] != "queue":
@@ -305,6 +318,12 @@ class Ledger(qsim.Oracle):
                 chan = "l" if d == "local" else "r"
                 m.pass_open.setdefault(chan, []).append((sim.vnow(), self.generation, ev["seq"]))
                 m.cursor[chan] = 0
+                if chan in m.mark_trouble:
+                    m.mark_trouble.discard(chan)
+                    for r in (m.records or {}).get(chan, []):
+                        if r.final() and not r.marked:
+                            r.reports.append("R")
+                            self.res.counters.inc("records_reopened_after_failed_mark")
         elif c == "write" and d in ("local", "remote") and ev.get("len") == 1 and ev.get("data") == "44":
             m = self.msg(num)
             if m is None:
